@@ -20,7 +20,7 @@ def main(argv):
         for kind in kinds.KINDS:
             rec = {}
             for ww in (True, False):
-                opts = kinds.wrap_opts(kind, bool(flips[i]) if i < len(flips) else False, ww)
+                opts = kinds.wrap_opts(kind, int(flips[i]) if i < len(flips) else 0, ww)
                 try:
                     text = kinds.emit_text(kind, domain.to_ir(cir), opts)
                 except Exception as e:
